@@ -26,6 +26,7 @@ GATES = ("ensure", "ensure_diagnostics")
 
 def run(ctx):
     F = ctx.load(None)
+    _usage_walk(ctx, F)
     LOW = "cairo_lang_lowering::borrow_check::"
 
     def g(rule, key, fn, matcher, **kw):
@@ -366,3 +367,150 @@ def _controls(ctx, F):
     m = Fn(d, dup.crate)
     r = check_guard(m, CallResult("::clone", "Err", arg="f:copyable"), sinks={c.bb for c in m.calls() if c.name() == "report_by_location"})
     ctx.control("dup without a report", not r.ok)
+
+
+def value_slice(f, op, limit=400):
+    """(field names read, call names) on the way a value is computed - through copies, re-borrows, projections and the
+    non-`&mut` arguments of calls; mutation through `&mut` arguments is not followed."""
+    from .lib import rvalue_operands, place_proj
+    flds, names, todo, seen = set(), set(), [op], set()
+    while todo and len(seen) < limit:
+        o = todo.pop()
+        pl = op_place(o)
+        if pl is None:
+            continue
+        for e in place_proj(pl):
+            if isinstance(e, list) and e[0] == "f" and e[2] is not None:
+                flds.add(str(e[2]))
+        l = place_local(pl)
+        if l in seen:
+            continue
+        seen.add(l)
+        for d in f.defs().get(l, []):
+            if d[0] == "stmt":
+                rv = d[3]
+                if rv[0] == "ref":
+                    todo.append(["c", rv[1]])
+                elif rv[0] == "disc":
+                    todo.append(["c", rv[1]])
+                else:
+                    todo.extend(rvalue_operands(rv))
+            elif d[0] == "call":
+                c = d[2]
+                names.add(c.name())
+                for a in c.args:
+                    la = op_local(a)
+                    if la is not None and (f.local_ty(la) or "").startswith("&mut") and c.name() not in ("next", "next_back"):
+                        continue          # (an iterator is read through `&mut`: `next(&mut iter)` yields what the iterator holds)
+                    todo.append(a)
+    return flds, names
+
+
+def _usage_walk(ctx, F):
+    """R8.5: the variable-usage analysis reaches every child expression of every expression kind.
+
+    Closures and loops get their captured variables (and loop functions their parameters) from `Usages::handle_expr`; a
+    child expression that is not walked contributes no usage, and lowering then meets a variable the closure / loop
+    function does not have (`as_var_usage` unwraps a None: an internal error on an error-free program).  For every arm
+    of the `match` on the expression kind and every field of the variant's payload that holds a child expression:
+      * `ExprId`: every path through the arm calls a walker of `Usages` on (something read through) the field, or records
+        a usage computed from the expression the field names (the snapshot-of-a-variable shortcut);
+      * `Option<ExprId>`: the same on every path but the `None` edge;
+      * `Vec<..ExprId..>`: a walker is called on the elements (an empty vector has nothing to walk)."""
+    hs = [f for f in F.find("cairo_lang_semantic::usage::Usages", name="handle_expr") if f.body and f.kind == "AssocFn"]
+    if len(hs) != 1:
+        raise AnchorError("Usages::handle_expr resolves to %d functions" % len(hs))
+    h = hs[0]
+    ctx.analysed(h)
+    E = [p for p in F.adts if p.endswith("::expr::objects::Expr")]
+    if len(E) != 1:
+        raise AnchorError("semantic Expr enum not found")
+    variants = F.adts[E[0]]["variants"]
+    top = None
+    for bb, t in h.switches():
+        si = h.switch_info(bb)
+        if si and si[0] == "disc" and (si[2] or "").endswith("::expr::objects::Expr") and (top is None or h.dominates(bb, top)):
+            top = bb
+    if top is None:
+        raise AnchorError("the match on the expression kind was not found in handle_expr")
+    t = h.blocks[top]["t"]
+    rets = h.return_blocks()
+    EXPR_ID = "expr::objects::ExprId"
+    n_fields = 0
+    usage_exc, used_exc = {}, set()
+    exc_path = os.path.join(os.path.dirname(os.path.dirname(os.path.abspath(__file__))), "tables", "c08_usage_exceptions.tsv")
+    if os.path.exists(exc_path):
+        for line in open(exc_path):
+            if line.strip() and not line.startswith("#"):
+                k_, alt_, why_ = line.rstrip("\n").split("\t")
+                usage_exc[k_] = (alt_, why_)
+    for v, tgt in t[2]:
+        if not isinstance(v, int) or v >= len(variants):
+            continue
+        var = variants[v]
+        pay_tys = [ty for _, ty in var["fields"]]
+        if not pay_tys:
+            continue
+        pay = strip_generics(pay_tys[0])
+        adt = F.adts.get(pay)
+        if adt is None:
+            continue
+        region = h.reachable_blocks(tgt)
+        calls = [c for c in h.calls() if c.bb in region]
+        for fld, fty in [x for vv in adt["variants"] for x in vv["fields"]]:
+            if EXPR_ID not in fty:
+                continue
+            kind = "id" if strip_generics(fty).endswith(EXPR_ID) and not fty.startswith(("core::option", "alloc::vec")) else (
+                "opt" if fty.startswith("core::option::Option<") and "Vec" not in fty else "vec")
+            tok = "f:" + fld
+            visits, records = set(), set()
+            for c in calls:
+                is_walker = c.path.startswith("cairo_lang_semantic::usage::Usages") or c.path.startswith("<cairo_lang_semantic::usage::Usages")
+                if not (is_walker or c.name() == "insert"):
+                    continue
+                # only the value arguments count (the `&mut self` / `&mut Usage` receivers have seen everything)
+                flds, names = set(), set()
+                for a in c.args:
+                    l = op_local(a)
+                    if l is not None and (h.local_ty(l) or "").startswith("&mut"):
+                        continue
+                    f_, n_ = value_slice(h, a)
+                    flds |= f_
+                    names |= n_
+                alt = usage_exc.get("handle_expr:%s.%s" % (var["name"], fld))
+                if fld not in flds:
+                    if alt and not is_walker and alt[0] in flds:
+                        records.add(c.bb)
+                        used_exc.add("handle_expr:%s.%s" % (var["name"], fld))
+                    continue
+                if is_walker:
+                    visits.add(c.bb)
+                elif "index" in names:
+                    records.add(c.bb)
+            none_edges = set()
+            if kind == "opt":
+                for bb2, t2 in h.switches():
+                    if bb2 not in region:
+                        continue
+                    si = h.switch_info(bb2)
+                    if si and si[0] == "disc" and "Option" in (si[2] or "") and (fld in place_fields(si[1]) or fld in value_slice(h, ["c", si[1]])[0]):
+                        listed = {vv for vv, _ in t2[2]}
+                        for vv, s_ in t2[2]:
+                            if vv == 0:
+                                none_edges.add(s_)
+                        if 0 not in listed:
+                            none_edges.add(t2[3])
+            n_fields += 1
+            if kind == "vec":
+                ok = bool(visits)
+                msg = "the elements of `%s` are walked" % fld if ok else "no walker of Usages is called on the elements of `%s`" % fld
+            else:
+                through = visits | records | none_edges
+                ok = bool(visits | records) and h.must_pass(tgt, rets, through)
+                msg = ("every path through the arm walks `%s`%s%s" % (fld, " or records a usage computed from it" if records else "", " (or it is None)" if kind == "opt" else "")) if ok else (
+                    "a path through the `%s` arm neither walks the child expression `%s` nor records a usage computed from it: what it uses is invisible to "
+                    "closures and loops that contain it" % (var["name"], fld))
+            ctx.ob("R8.5", "handle_expr:%s.%s" % (var["name"], fld), ok, msg, h.where())
+    for k_ in sorted(set(usage_exc) - used_exc):
+        ctx.ob("R8.5", "stale-exception:" + k_, False, "exception row matches nothing any more (remove it)", "tables/c08_usage_exceptions.tsv")
+    ctx.floor("child-expression fields walked by the usage analysis", n_fields, 20)
